@@ -926,6 +926,10 @@ def render_literal_string(value, backslash_escapes, dialect_name=None):
     value = str(value).replace("'", "''")
     if backslash_escapes:
         value = value.replace('\\', '\\\\')
+    if dialect_name == 'mssql':
+        # a backslash directly in front of a line break continues a T-SQL constant on the next line: both are dropped.
+        # "\\ \\ newline newline" is read as an ordinary backslash, a continuation, and the line break
+        value = re.sub(r'\\(\r?\n)', r'\\\\\1\1', value)
     if dialect_name == 'mssql' and not value.isascii():
         # a constant without N is varchar: it is converted to the code page of the database and loses the
         # characters that are not in it (sqlalchemy's own literal processor makes the same choice)
